@@ -1788,6 +1788,10 @@ impl<T: Transport, E: UtpEnvironment> UtpStreamStarter<T, E> {
         {
             crate::verif::set_current(Some(verif_key));
             crate::verif::emit(|| crate::verif::ProbeEvent::ConnCreated(verif_key));
+            crate::verif::emit(|| crate::verif::ProbeEvent::ConnRecvId {
+                key: verif_key,
+                conn_id_recv: conn_id_recv.0,
+            });
         }
 
         let cancellation_token = socket.cancellation_token.child_token();
